@@ -358,6 +358,22 @@ func (w *walker) scalar(v ssa.Value, ctx *sx.Ctx) chain {
 			rev = append(rev, chainOp{kind: k, c: c, pos: x.Pos()})
 			v = next
 			continue
+		case *ssa.Extract:
+			// one result of a package-local helper with a single return statement
+			if c, ok := x.Tuple.(*ssa.Call); ok {
+				if callee := c.Call.StaticCallee(); callee != nil && callee.Blocks != nil && w.inline != nil && w.inline(callee) && (ctx == nil || ctx.Depth < 4) {
+					if rv, ok := tupleReturn(callee, x.Index); ok {
+						d := 0
+						if ctx != nil {
+							d = ctx.Depth
+						}
+						ctx = &sx.Ctx{Call: c, Parent: ctx, Depth: d + 1}
+						v = rv
+						continue
+					}
+				}
+			}
+			return fail("result of a call the rule does not follow")
 		case *ssa.Call:
 			obj := calleeObj(x)
 			args := x.Call.Args
@@ -462,6 +478,25 @@ func (c chain) prepend(revSinkFirst []chainOp) chain {
 		c.ops = append(c.ops, revSinkFirst[i])
 	}
 	return c
+}
+
+// tupleReturn returns result idx of the function's only return statement.
+func tupleReturn(fn *ssa.Function, idx int) (ssa.Value, bool) {
+	var out ssa.Value
+	n := 0
+	for _, b := range fn.Blocks {
+		if len(b.Instrs) == 0 {
+			continue
+		}
+		if r, ok := b.Instrs[len(b.Instrs)-1].(*ssa.Return); ok {
+			n++
+			if idx >= len(r.Results) {
+				return nil, false
+			}
+			out = r.Results[idx]
+		}
+	}
+	return out, n == 1
 }
 
 func singleReturn(fn *ssa.Function) (ssa.Value, bool) {
@@ -580,6 +615,22 @@ func (w *walker) vector(v ssa.Value, comp int, ctx *sx.Ctx) chain {
 				}
 			}
 			return fail("vector loaded from memory the rule does not follow")
+		case *ssa.Extract:
+			// one result of a package-local helper with a single return statement
+			if c, ok := x.Tuple.(*ssa.Call); ok {
+				if callee := c.Call.StaticCallee(); callee != nil && callee.Blocks != nil && w.inline != nil && w.inline(callee) && (ctx == nil || ctx.Depth < 4) {
+					if rv, ok := tupleReturn(callee, x.Index); ok {
+						d := 0
+						if ctx != nil {
+							d = ctx.Depth
+						}
+						ctx = &sx.Ctx{Call: c, Parent: ctx, Depth: d + 1}
+						v = rv
+						continue
+					}
+				}
+			}
+			return fail("result of a call the rule does not follow")
 		case *ssa.Call:
 			obj := calleeObj(x)
 			args := x.Call.Args
